@@ -743,7 +743,9 @@ func replaySrvPing(c Case) Result {
 		return res
 	}
 	defer srv.Close()
+	var hsN int32
 	handshake := func() (net.Conn, *json.Decoder, string, error) {
+		k := atomic.AddInt32(&hsN, 1)
 		cn, err := net.DialTimeout("tcp", addr.String(), 2*time.Second)
 		if err != nil {
 			return nil, nil, "", err
@@ -768,7 +770,7 @@ func replaySrvPing(c Case) Result {
 				return nil, nil, "", err
 			}
 		}
-		me := "0f1b2c3d-4e5f-4a6b-8c7d-9e0f1a2b3c4d@example.com/home"
+		me := fmt.Sprintf("0f1b2c3d-4e5f-4a6b-8c7d-9e0f1a2b3c%02x@example.com/home", k)
 		fmt.Fprintf(cn, `{"id":%q,"from":%q,"state":"authenticating","scheme":"guest","authentication":{}}`+"\n", sid, me)
 		if err := dec.Decode(&m); err != nil {
 			cn.Close()
@@ -849,6 +851,46 @@ func replaySrvPing(c Case) Result {
 	}
 	r.log(Event{K: "srvown", Res: own})
 	cn.Close()
+	// 2b. several sessions pinging at once: every reply goes to the session that asked, with its id and node (C17)
+	{
+		var wg sync.WaitGroup
+		var crossed int32
+		for w := 0; w < 3; w++ {
+			wg.Add(1)
+			go func(w int) {
+				defer wg.Done()
+				cw, dw, mw, err := handshake()
+				if err != nil {
+					return
+				}
+				defer cw.Close()
+				go func() {
+					for i := 0; i < 150; i++ {
+						fmt.Fprintf(cw, `{"id":"s%d-%d","from":%q,"method":"get","uri":"/ping"}`+"\n", w, i, mw)
+					}
+				}()
+				for i := 0; i < 150; i++ {
+					var m map[string]interface{}
+					cw.SetReadDeadline(time.Now().Add(2 * time.Second))
+					if err := dw.Decode(&m); err != nil {
+						atomic.AddInt32(&crossed, 1) // a reply that never came
+						return
+					}
+					id, _ := m["id"].(string)
+					to, _ := m["to"].(string)
+					if !strings.HasPrefix(id, fmt.Sprintf("s%d-", w)) || (to != "" && to != mw) {
+						atomic.AddInt32(&crossed, 1)
+					}
+				}
+			}(w)
+		}
+		wg.Wait()
+		res := "own"
+		if atomic.LoadInt32(&crossed) > 0 {
+			res = "crossed"
+		}
+		r.log(Event{K: "srvstorm", Res: res})
+	}
 	// 3. a request without uri (on a session of its own: it is not a valid envelope and ends that session)
 	if cn2, _, _, err := handshake(); err == nil {
 		fmt.Fprintf(cn2, `{"id":"j1","method":"get"}`+"\n")
